@@ -78,12 +78,37 @@ func c18(w *core.World, r *core.Report) {
 	r.Rule("R18.5", "a unit is emitted only on the builder's success edge", 1)
 	if f := fn(w, r, "(*syncer.RedisOutput).parseAofReplayUnits"); f != nil {
 		var emit *ssa.Function
-		for _, c := range core.DeepFuncs(f)[1:] {
+		emitArg := 0 // which of the emitter's parameters is the unit it sends
+		// the emitter: a closure of the parser, or a function the parser (or one of its closures) calls, that
+		// sends one of its parameters, a unit, on a channel
+		cands := append([]*ssa.Function(nil), core.DeepFuncs(f)[1:]...)
+		for _, g := range core.DeepFuncs(f) {
+			for _, s := range core.Sites(g, false) {
+				if s.Callee != nil && s.Callee.Parent() == nil && len(s.Callee.Blocks) > 0 && !s.Common().IsInvoke() {
+					cands = append(cands, s.Callee)
+				}
+			}
+		}
+		for _, c := range cands {
 			for _, in := range core.OwnInstrs(c) {
-				if sel, ok := in.(*ssa.Select); ok {
-					for _, st := range sel.States {
-						if st.Send != nil && strings.HasSuffix(st.Send.Type().String(), "bisyncReplayUnit") {
-							emit = c
+				var sent []ssa.Value
+				switch x := in.(type) {
+				case *ssa.Select:
+					for _, st := range x.States {
+						if st.Send != nil {
+							sent = append(sent, st.Send)
+						}
+					}
+				case *ssa.Send:
+					sent = append(sent, x.X)
+				}
+				for _, v := range sent {
+					if !strings.HasSuffix(v.Type().String(), "bisyncReplayUnit") {
+						continue
+					}
+					for k, par := range c.Params {
+						if ssa.Value(par) == v {
+							emit, emitArg = c, k
 						}
 					}
 				}
@@ -106,7 +131,7 @@ func c18(w *core.World, r *core.Report) {
 					}
 				}
 				for _, bs := range builds {
-					if core.Dominates(bs.Instr, s.Instr) && core.OnSuccessOf(s.Instr.Block(), bs.Value()) && core.Unwrap(s.Args()[0]) == extractOf(bs.Value(), 0) {
+					if core.Dominates(bs.Instr, s.Instr) && core.OnSuccessOf(s.Instr.Block(), bs.Value()) && emitArg < len(s.Common().Args) && core.Unwrap(s.Common().Args[emitArg]) == extractOf(bs.Value(), 0) {
 						okB = true
 					}
 				}
